@@ -27,12 +27,12 @@ def install():
         return
     raw = mg.MolGen.__init__
 
-    def init(self, tok):
+    def init(self, tok, *args, **kwargs):
         if _budget["left"] is not None:
             _budget["left"] -= 1
             if _budget["left"] < 0:
                 raise BudgetExceeded()
-        raw(self, tok)
+        raw(self, tok, *args, **kwargs)
 
     mg.MolGen.__init__ = init
     mg.MolGen._gbv_budget = True
